@@ -24,7 +24,7 @@ CHECKS = {
             "DESIGN.md 3/C20"),
     "C12": ("fault_enumeration",
             "exhaustive enumeration of configuration x single-fault points plus Hypothesis-drawn double faults, against a reference model of target() written from the statement, under a recording harness",
-            "All 2700 combinations of script x (platform, board) class x upload x PlatformIO state x fault point are executed against the real target() with subprocess/tempfile/__main__/pathlib replaced by recording fakes that honour check= like subprocess; the reference model decides the expected exception, the recorded tool invocations (order, cwd), the written files (main.cpp bytes, platformio.ini read back with configparser) and the absence of effects.",
+            "All combinations of script x (platform, board) class (incl. board ids that are not identifiers) x upload x PlatformIO state x fault point x tool exit status (1, 2, 127, 255, -2, -9, -15, cannot start) are executed against the real target() with subprocess/tempfile/__main__/pathlib replaced by recording fakes that honour check= like subprocess; the reference model decides the expected exception, the recorded tool invocations (order, cwd), the written files (main.cpp bytes, platformio.ini read back with configparser) and the absence of effects.",
             "pio itself is never executed; file-system access is assumed to go through pathlib/tempfile (faults that are never reached are counted, not judged).",
             "DESIGN.md 3/C12"),
     "C08": ("exploration",
@@ -43,22 +43,22 @@ CHECKS = {
             "Same trusted base as C01; scenario classes of open findings are off by construction and covered by their witnesses.",
             "DESIGN.md 3/C02"),
     "C03": ("translation_validation",
-            "metamorphic pairs (literal in a foldable position vs the same value routed through variables/helpers) plus differential testing against CPython, on generated folding scenarios",
+            "metamorphic pairs (literal in a foldable position vs the same value routed through variables/helpers) plus differential testing against CPython, on generated folding scenarios; fold shards compare site(E) with site(value of E) byte-for-byte for thousands of recursive constant trees",
             "Scenarios place foldable operands (delays, pins, blink/fade/brightness arguments, range bounds, len(), flash patterns, glyph bitmaps, sensor model names) as folded literal arithmetic and as run-time variables assigned in branches/loops/helpers, including operands whose run-time value differs from the value they had when the line was parsed; both renderings must agree with CPython and with each other.",
             "Same trusted base as C01; open staleness classes (flash_pattern after a conditional re-assignment, device pin by re-assigned name) are excluded and witnessed.",
             "DESIGN.md 3/C03"),
     "C07": ("exploration",
-            "metamorphic testing (meaning-preserving re-layout validated by ast.dump equality, outcome must be byte-identical) plus hook-based line accounting over generated programs seeded with every statement kind",
+            "metamorphic testing (meaning-preserving re-layout validated by ast.dump equality, outcome must be byte-identical), hook-based line accounting over generated programs seeded with every statement kind, and differential testing of generated control-flow skeletons (marker or empty block per arm) against CPython",
             "Layout: generated programs are re-rendered with random indent units, blank lines, comment lines at any column, trailing comments (also on block headers), trailing whitespace and compact/spacey token spacing; the emitted C++ must not change. Accounting: with the REDUINO_VERIF hook every line the parser consumes without a node is classified; anything outside the fixed no-meaning set is a violation, bucketed by call site + statement kind.",
             "The silent `unknown -> ignore` path is a recorded finding identified by call site + statement kind (23 kinds listed); any other dropped kind is reported. Line continuations / triple-quoted strings are not generated.",
             "DESIGN.md 3/C07"),
     "C06": ("exploration",
-            "grammar-based generation (widest profile, all devices/methods, hostile printable strings) with a validity-predicate oracle: one setup()/loop(), host g++ acceptance against the mock core, link for a sample",
+            "grammar-based generation (widest profile, all devices/methods, hostile printable strings; plus the type-flow scenario scripts of C02) with a validity-predicate oracle: one setup()/loop(), host g++ acceptance against the mock core, link for a sample",
             "Every accepted generated script must produce a sketch with exactly one setup() and loop() that g++ (gnu++11, -fno-exceptions, -fpermissive) accepts against the mock Arduino core and mock Servo/LiquidCrystal headers; undeclared identifiers, inconsistent types, bad escaping and missing headers are compile errors there too.",
             "Mock core + host g++ stand in for the AVR toolchain and real libraries; compile-level findings already recorded are excluded by construction.",
             "DESIGN.md 3/C06"),
     "C14": ("exploration",
-            "generated device multisets with decoys; oracle = equality of four independently derived library sets (generator knowledge, _collect_required_libraries, #include lines, global object classes) and link against mock headers",
+            "generated device multisets with decoys; oracle = equality of five independently derived library sets (generator knowledge, _collect_required_libraries, lib_deps read back from the written platformio.ini, #include lines, global object classes) and link against mock headers",
             "For every generated combination of 0-3 servos (prologue or top of main loop), 0-2 parallel and 0-2 I2C LCDs, other devices and decoy identifiers/strings/comments, the requested libraries, the included headers and the instantiated library classes must all equal the set the generator declared, with nothing listed twice and Wire.h accompanying the I2C header.",
             "Library versions and registry names cannot be checked offline.",
             "DESIGN.md 3/C14"),
